@@ -207,6 +207,8 @@ def skeletons(tier):
     S.append(("open-add-leave", [[("cbind", 0, X, "A"), ("open", 0, "m"), ("add", 0) + m1], [("drop", 0)]], True))
     S.append(("two-sides-staggered", [[("cbind", 0, X, "A"), ("open", 0, "m"), ("add", 0) + m1],
                                       [("cbind", 1, X, "B"), ("open", 1, "m")], [("drop", 0)]], False))
+    S.append(("reconnect-overlap-same-side", [[("cbind", 0, X, "A"), ("open", 0, "m"), ("add", 0) + m1],
+                                              [("cbind", 1, X, "A"), ("open", 1, "m")], [("drop", 0)]], False))
     S.append(("old-and-new-side-by-side", [[("cbind", 0, X, "A"), ("open", 0, "m"), ("add", 0) + m1, ("drop", 0)],
                                            [("cbind", 1, X, "B"), ("open", 1, "n"), ("add", 1) + m1, ("drop", 1)]], True))
     S.append(("two-apps-side-by-side", [[("cbind", 0, X, "A"), ("claim", 0, "1"), ("drop", 0)],
